@@ -271,7 +271,7 @@ def _hilbert3d(x, y, z, bit_length):
     return order
 
 
-def _get_cpu_list(bounding_box, lmax, levelmax, infofile, ncpu, ndim):
+def _get_cpu_list(bounding_box, lmax, levelmax, infofile, ncpu, ndim, levelmin=1):
     bound_key = _read_bound_key(infofile=infofile, ncpu=ncpu)
 
     xmin = bounding_box["xmin"]
@@ -286,7 +286,11 @@ def _get_cpu_list(bounding_box, lmax, levelmax, infofile, ncpu, ndim):
         if dx < dmax:
             break
 
-    lmin = ilevel
+    # The files are organised by octs, and an oct is owned by the CPU whose key range
+    # contains the centre of its *father* cell. The search cubes must therefore not be
+    # finer than the father of the coarsest cell that can be returned (level
+    # levelmin - 1), or the owner of a qualifying cell larger than the cubes is missed.
+    lmin = min(ilevel, max(levelmin, 1))
     bit_length = lmin - 1
     maxdom = 2**bit_length
     imin = 0
@@ -380,4 +384,5 @@ def hilbert_cpu_list(meta, scaling, select, infofile):
             infofile=infofile,
             ncpu=meta["ncpu"],
             ndim=meta["ndim"],
+            levelmin=meta["levelmin"],
         )
